@@ -35,6 +35,20 @@ package main
 //	return (no operands)             GSReturn [] - in a function with named results: their current values
 //
 // Named results together with defer stay a problem (a deferred call could change what is returned).
+//
+// tagfuncs.go (E6) switches on a fourth fragment (tg) on top of the third:
+//
+//	a + b   GEAdd a b        a > b   GEGt a b        (integers)
+//
+// The loop of the if tag, for i, condition := range node.conditions, is the GSRange of the second
+// fragment: its key is the index.
+//
+// tagfuncs.go (E7, the tags that keep state) switches on a fifth fragment (st) on top of the fourth:
+//
+//	v, ok := e.(*T)   GSDefine ["v"; "ok"] [GETypeAssertOk e "T"]   (also with =)
+//	append(s, x)      GEAppend s x          make([]T, 0[, hint])   GEEmptySlice "T" (T not byte; hint pure, dropped)
+//	a % b             GERem a b             break                  GSBreak (no label)
+//	x.f++             GSIncField x "f"
 
 import (
 	"fmt"
@@ -65,6 +79,8 @@ type wrapGen struct {
 	locals map[string]bool // receiver, parameters and every name declared in the body
 	ext    bool            // the second fragment (setfuncs.go) is translated too; false for the wrappers
 	ld     bool            // the third fragment (loaderfuncs.go) on top of the second
+	tg     bool            // the fourth fragment (tagfuncs.go) on top of the third: integer + and >
+	st     bool            // the fifth fragment (tagfuncs.go, the tags with state) on top of the fourth
 }
 
 func (g *wrapGen) src(n ast.Node) string {
@@ -171,6 +187,15 @@ func (g *wrapGen) expr(x ast.Expr) string {
 				return "(" + con + " " + g.expr(t.X) + " " + g.expr(t.Y) + ")"
 			}
 		}
+		if g.tg && !isNilIdent(t.X) && !isNilIdent(t.Y) {
+			// fourth fragment: integer addition and the comparison >
+			if con, ok := map[token.Token]string{token.ADD: "GEAdd", token.GTR: "GEGt"}[t.Op]; ok {
+				return "(" + con + " " + g.expr(t.X) + " " + g.expr(t.Y) + ")"
+			}
+			if g.st && t.Op == token.REM {
+				return "(GERem " + g.expr(t.X) + " " + g.expr(t.Y) + ")"
+			}
+		}
 		return g.unknownExpr(x, "operator")
 	case *ast.UnaryExpr:
 		if g.ext && t.Op == token.NOT {
@@ -247,13 +272,26 @@ func (g *wrapGen) expr(x ast.Expr) string {
 						return "GEMakeMap"
 					}
 				}
+				// fifth fragment: make([]T, 0) and make([]T, 0, hint): an empty slice of T; the hint is dropped
+				if g.st && (len(t.Args) == 2 || (len(t.Args) == 3 && pureHint(t.Args[2]))) {
+					if at, ok := t.Args[0].(*ast.ArrayType); ok && at.Len == nil && !isByteSlice(at) {
+						if bl, ok := t.Args[1].(*ast.BasicLit); ok && bl.Kind == token.INT && bl.Value == "0" {
+							return "(GEEmptySlice " + coqString(g.src(at.Elt)) + ")"
+						}
+					}
+				}
 				return g.unknownExpr(x, "make")
+			case "append":
+				if g.st && len(t.Args) == 2 {
+					return "(GEAppend " + g.expr(t.Args[0]) + " " + g.expr(t.Args[1]) + ")"
+				}
+				return g.unknownExpr(x, "builtin")
 			case "len":
 				if g.ext && len(t.Args) == 1 {
 					return "(GELen " + g.expr(t.Args[0]) + ")"
 				}
 				return g.unknownExpr(x, "builtin")
-			case "new", "append", "cap", "copy", "panic", "recover", "delete", "print", "println":
+			case "new", "cap", "copy", "panic", "recover", "delete", "print", "println":
 				return g.unknownExpr(x, "builtin")
 			}
 			return "(GECall \"\" " + coqString(f.Name) + " " + g.exprs(t.Args) + ")"
@@ -326,6 +364,14 @@ func (g *wrapGen) stmt(s ast.Stmt, indent string) string {
 			return g.unknownStmt(s, "assignment to something that is not a variable")
 		}
 		if g.ext && len(t.Lhs) == 2 && len(t.Rhs) == 1 && (t.Tok == token.DEFINE || t.Tok == token.ASSIGN) {
+			if ta, ok := ast.Unparen(t.Rhs[0]).(*ast.TypeAssertExpr); ok && g.st && ta.Type != nil { // v, ok := e.(*T)
+				if star, ok := ta.Type.(*ast.StarExpr); ok {
+					if id, ok := star.X.(*ast.Ident); ok {
+						con := map[token.Token]string{token.DEFINE: "GSDefine", token.ASSIGN: "GSAssign"}[t.Tok]
+						return con + " " + coqStringList(names) + " [(GETypeAssertOk " + g.expr(ta.X) + " " + coqString(id.Name) + ")]"
+					}
+				}
+			}
 			if ix, ok := ast.Unparen(t.Rhs[0]).(*ast.IndexExpr); ok { // v, ok := m[k]
 				con := map[token.Token]string{token.DEFINE: "GSDefine", token.ASSIGN: "GSAssign"}[t.Tok]
 				return con + " " + coqStringList(names) + " [(GEIndexOk " + g.expr(ix.X) + " " + g.expr(ix.Index) + ")]"
@@ -370,6 +416,18 @@ func (g *wrapGen) stmt(s ast.Stmt, indent string) string {
 			return "GSExpr " + g.expr(t.X)
 		}
 		return g.unknownStmt(s, "expression statement that is not a call")
+	case *ast.BranchStmt:
+		if g.st && t.Tok == token.BREAK && t.Label == nil {
+			return "GSBreak"
+		}
+	case *ast.IncDecStmt:
+		if g.st && t.Tok == token.INC {
+			if sel, ok := ast.Unparen(t.X).(*ast.SelectorExpr); ok {
+				if id, isID := sel.X.(*ast.Ident); !(isID && g.pkgs[id.Name] && !g.locals[id.Name]) {
+					return "GSIncField " + g.expr(sel.X) + " " + coqString(sel.Sel.Name)
+				}
+			}
+		}
 	case *ast.DeclStmt:
 		if !g.ld {
 			break
@@ -493,12 +551,22 @@ func (p *pkgInfo) genFunc(who, recv, name, ident string, ext bool) (string, bool
 
 // genFuncFrag: ld selects the third fragment (on top of the second).
 func (p *pkgInfo) genFuncFrag(who, recv, name, ident string, ext, ld bool) (string, bool) {
+	return p.genFuncFrag4(who, recv, name, ident, ext, ld, false)
+}
+
+// genFuncFrag4: tg selects the fourth fragment (on top of the third).
+func (p *pkgInfo) genFuncFrag4(who, recv, name, ident string, ext, ld, tg bool) (string, bool) {
+	return p.genFuncFrag5(who, recv, name, ident, ext, ld, tg, false)
+}
+
+// genFuncFrag5: st selects the fifth fragment (on top of the fourth).
+func (p *pkgInfo) genFuncFrag5(who, recv, name, ident string, ext, ld, tg, st bool) (string, bool) {
 	fd := p.findMethod(recv, name)
 	if fd == nil || fd.Body == nil {
 		problem("%s: method %s.%s not found", who, recv, name)
 		return fmt.Sprintf("(* %s.%s: NOT FOUND in the source *)\n\n", recv, name), false
 	}
-	g := &wrapGen{p: p, who: who, fn: recv + "." + name, pkgs: importNames(p.fileOf(fd)), locals: map[string]bool{}, ext: ext, ld: ld}
+	g := &wrapGen{p: p, who: who, fn: recv + "." + name, pkgs: importNames(p.fileOf(fd)), locals: map[string]bool{}, ext: ext, ld: ld, tg: tg, st: st}
 	recvName := "_"
 	if len(fd.Recv.List[0].Names) > 0 {
 		recvName = fd.Recv.List[0].Names[0].Name
